@@ -79,6 +79,10 @@ def obligations(ctx):
                     obs.append(g.vec_ob(op, var, nn, rsz, 1, 0, so, avx=(rsz + nn) % 2, alias=4, pmode=1, tag="limb0-shared/", timeout=600))
                 else:
                     obs.append(g.vec_ob(op, var, nn, rsz, 1, 0, so, avx=(rsz + nn) % 2, alias=4, tag="limb0-shared/"))
+    # ... and its VALUES: the scalar-product pipeline with the inverse DFT run in place yields the same exact polynomial as with a separate output (C01 analysis)
+    from vf.props import c01
+    for (nn, avx, rsz, asz) in ((4, 0, 2, 1), (8, 1, 2, 2), (16, 1, 1, 1), (8, 0, 3, 2)):
+        obs.append(c01.prod_ob(ag.tables(ctx), 1, nn, avx, rsz, asz, idft_inplace=True, tag="idft-inplace-values/"))
     # pointwise products with r==a or r==b (reim, reim4 and interleaved-complex vectors, reference and FMA kernels): the aliased call yields the
     # same exact-semantics polynomial as the definition (shared analysis with C17)
     from vf.props import c17
